@@ -33,13 +33,16 @@ let run line =
      | None -> "NEWFAIL"
      | Some t0 ->
        let t = ref t0 in
-       let dead = ref false in   (* after an error status the API requires a reset: further parses are skipped *)
+       let dead = ref false in
+       let armed = ref false in  (* an allocation fault is scheduled for the next parse: its outcome is not modelled *)   (* after an error status the API requires a reset: further parses are skipped *)
        let out = ref [] in
        (try
          List.iter (fun op ->
            let body = String.sub op 1 (String.length op - 1) in
            match op.[0] with
            | ('P' | 'Z') when !dead -> out := "skipped" :: !out
+           | ('P' | 'Z') when !armed -> armed := false; dead := true; out := "? ? ?" :: !out
+           | 'M' -> armed := true; out := "armed" :: !out
            | 'P' | 'Z' ->
              let bs = bytes_of_hex body in
              let r = if op.[0] = 'P' then parse_ex strtod_bits !t bs else parse_ex_cstr strtod_bits !t bs in
